@@ -396,6 +396,21 @@ class Ctx:
         self.extra["forbidden_tokens"] = res["forbidden"]
         if not res["ok"]:
             self.proof_log = res["log"]
+        # thorough tier: the compiled theorem file is re-checked by leanchecker, the toolchain's independent re-checker of .olean files
+        if self.tier == "thorough" and res["ok"] and os.environ.get("KOALA_VERIF_NO_LEANCHECKER") != "1":
+            import shutil
+            if shutil.which("leanchecker"):
+                t0 = time.time()
+                with LakeLock():
+                    rc, out = _run(["lake", "env", "leanchecker", f"KoalaVerif.Props.{self.pid}"], cwd=LEAN, timeout=3000)
+                self.extra["leanchecker"] = dict(rc=rc, seconds=round(time.time() - t0, 1), tail=out[-300:])
+                if rc != 0:
+                    self.proof_ok = False
+                    self.proof_log = (getattr(self, "proof_log", "") or "") + "\n[leanchecker]\n" + out[-3000:]
+                    for o in self.obligations:
+                        o["ok"] = False
+            else:
+                self.extra["leanchecker"] = dict(rc=None, note="leanchecker not on PATH")
         return res
 
     # -- verdicts ---------------------------------------------------------------------------
